@@ -722,6 +722,94 @@ pub fn cycles<C: Backing>(ctx: &Ctx, rep: &mut Report, seed: usize, max_len: usi
     rep.count(if twin { "twin_cycles_unrolled" } else { "cycles_unrolled" }, count);
 }
 
+/// Marathons: every cycle of 1..=max_len ops over the 14-op alphabet repeated 70 000 times on one
+/// object (stopped early if the deque outgrows 64 live elements: a cycle that only grows meets no
+/// new event), oracle after every op.  The 65 536th occurrence of an event - a slide, a wrap of the
+/// cursor, an increment of a narrow counter - lies within reach.
+pub fn marathon<C: Backing>(ctx: &Ctx, rep: &mut Report, max_len: usize, reps: usize, unit_base: &mut usize) {
+    let ops = &OPS;
+    let n = ops.len();
+    let mut count = 0u64;
+    for len in 1..=max_len {
+        for c in 0..n.pow(len as u32) {
+            if !ctx.owns(*unit_base + c % 4096) {
+                continue;
+            }
+            let mut x = c;
+            let mut cycle: Vec<Op> = Vec::with_capacity(len);
+            for _ in 0..len {
+                cycle.push(ops[x % n]);
+                x /= n;
+            }
+            if (1..len).any(|d| len % d == 0 && (0..len).all(|i| cycle[i] == cycle[i % d])) {
+                continue;
+            }
+            count += 1;
+            rep.evaluations += 1;
+            let mut st: State<C> = State::new(0);
+            let mut steps = 0usize;
+            let mut failure: Option<String> = None;
+            'run: for _ in 0..reps {
+                for op in &cycle {
+                    steps += 1;
+                    if let Err(e) = st.apply(*op) {
+                        failure = Some(e);
+                        break 'run;
+                    }
+                }
+                if st.m.len() > 64 {
+                    break;
+                }
+            }
+            rep.transitions += steps as u64;
+            if let Some(e) = failure {
+                // the artefact names the cycle and the step; replaying it re-runs the marathon
+                let again = {
+                    let mut st: State<C> = State::new(0);
+                    let mut r: Result<(), String> = Ok(());
+                    let mut k = 0usize;
+                    'again: for _ in 0..reps {
+                        for op in &cycle {
+                            k += 1;
+                            if let Err(e) = st.apply(*op) {
+                                r = Err(e);
+                                break 'again;
+                            }
+                        }
+                    }
+                    (r, k)
+                };
+                if again.0.as_ref().err() != Some(&e) || again.1 != steps {
+                    machinery_failure(&format!("marathon violation did not reproduce identically: cycle [{}] step {}: {}", render(0, &cycle), steps, e));
+                }
+                rep.violation(Violation {
+                    key: format!("C15:marathon:{}:{}", C::NAME, render(0, &cycle).replace(' ', "")),
+                    summary: format!("SlidingDeque<{}>, cycle [{}] repeated: at step {} (repetition {}): {}", C::NAME, render(0, &cycle), steps, (steps - 1) / len + 1, e),
+                    replay_text: format!("check: sliding-marathon\nbacking: {}\ncycle: {}\nreps: {}\nobserved: step {}: {}\n", C::NAME, render(0, &cycle), reps, steps, e),
+                });
+            }
+        }
+        *unit_base += 4096;
+    }
+    rep.count("marathon_cycles", count);
+}
+
+/// Replays a marathon artefact.
+pub fn replay_marathon<C: Backing>(cycle: &[Op], reps: usize) -> Result<(), String> {
+    let mut st: State<C> = State::new(0);
+    let mut k = 0usize;
+    for _ in 0..reps {
+        for op in cycle {
+            k += 1;
+            st.apply(*op).map_err(|e| format!("step {}: {}", k, e))?;
+        }
+        if st.m.len() > 64 {
+            break;
+        }
+    }
+    Ok(())
+}
+
 /// Zero-sized items: a `SlidingDeque<Vec<()>>` built from a vector of up to usize::MAX elements is
 /// legal (no memory is involved), and its cursor arithmetic runs at the top of the usize range.
 /// All op sequences to `depth` over pushes, pops, advances by 1 / half / half+1 / half+2 / MAX,
@@ -902,6 +990,9 @@ pub fn run(ctx: &Ctx) -> Report {
     cycles::<Vec<u32>>(ctx, &mut rep, 1024, cl_len - 1, cl_reps, &mut unit, &OPS_BIG, false);
     cycles::<SpyVec<u32>>(ctx, &mut rep, 0, cl_len - 1, cl_reps, &mut unit, &OPS_EXT, true);
     cycles::<SmallVec<[u32; 2]>>(ctx, &mut rep, 3, cl_len - 1, cl_reps, &mut unit, &OPS_EXT, true);
+    marathon::<Vec<u32>>(ctx, &mut rep, ctx.tier.pick(2, 3), 70_000, &mut unit);
+    marathon::<SmallVec<[u32; 2]>>(ctx, &mut rep, 2, 70_000, &mut unit);
+    rep.note(format!("C15: marathons: every cycle of 1..={} ops over the 14-op alphabet repeated 70 000 times on one Vec-backed deque (cycles of up to 2 ops on SmallVec), oracle after every op, stopped early once more than 64 elements are live", ctx.tier.pick(2, 3)));
     rep.note(format!("C15: periodic unrollings: every cycle of 1..={} ops over the 16-op alphabet repeated {} times on one object (SpyVec, Vec, SmallVec from empty; SmallVec from 3 items and Vec from 1024 items one op shorter), oracle after every op; the same with TWO deques alive and used alternately (the second one op ahead in the cycle), each against its own model", cl_len, cl_reps));
     rep.note(format!("C15: large containers: From<container> with 1024, 1500 and 5000 items (Vec and spilled SmallVec), all sequences to depth {} over {:?}", ctx.tier.pick(4, 5), OPS_BIG.iter().map(|o| o.name()).collect::<Vec<_>>()));
     rep.note(format!("C15: the cloning explorers copy the deque before every op (exactly-fitting capacity, so every push meets a full container); the straight explorer re-executes all histories to depth {} on one object (amortised capacities)", depth - 2));
@@ -930,6 +1021,21 @@ pub fn replay(text: &str) -> Result<String, String> {
         return match zst_run_one(start, &path) {
             Err(e) => Ok(format!("{} zero-sized items, {}: {}", start, hist, e)),
             Ok(()) => Err(format!("{} zero-sized items, {}: agrees with the counter model", start, hist)),
+        };
+    }
+    if field(text, "check") == Some("sliding-marathon") {
+        let backing = field(text, "backing").unwrap_or("Vec");
+        let Some((_, cycle)) = field(text, "cycle").and_then(parse_history) else {
+            machinery_failure("cannot parse marathon cycle");
+        };
+        let reps: usize = field(text, "reps").and_then(|r| r.parse().ok()).unwrap_or(70_000);
+        let r = match backing {
+            "SmallVec2" => replay_marathon::<SmallVec<[u32; 2]>>(&cycle, reps),
+            _ => replay_marathon::<Vec<u32>>(&cycle, reps),
+        };
+        return match r {
+            Err(e) => Ok(format!("cycle [{}] repeated: {}", render(0, &cycle), e)),
+            Ok(()) => Err(format!("cycle [{}] repeated {} times agrees with the reference deque", render(0, &cycle), reps)),
         };
     }
     if field(text, "check") == Some("sliding-twin") {
